@@ -15,6 +15,9 @@ CLAIMED = {
  "C11": ("NET: unmodified messages of correct senders judged at delivery to correct peers whose state satisfies the stated precondition", "3 C11", SIM + ": effect check at delivery"),
  "C12": ("NET/RT: garbage, truncated, mutated and extreme-field inputs into running nodes; recovered-panic observer and post-attack progress", "3 C12", SIM + ": panic observer + post-attack liveness"),
  "C13": ("NET/RT: callback, registration and State() sequences of every node instance", "3 C13", SIM + ": sequence invariants on the real two-goroutine runtime"),
+ "C17": ("COMP: the real RawMessageFilter and state.State driven by receive/advance operation sequences (seeded long sequences, plus an exhaustive sweep of short ones) against a history checker written from the statement", "3 C17", SIM + ": component under the simulator's tape vs. executable reference checker of the recorded history"),
+ "C15": ("COMP: the real context registry (state.ViewContexts) against a model under seeded For/CancelOlderThan/Shutdown sequences plus an exhaustive sweep of short sequences over a 2x3 (height, view) grid; RT: gated SPI calls on the real runtime observed against the model's watermark", "3 C15", SIM + ": component vs. reference model under the tape + gate observations on the real runtime"),
+ "C19": ("COMP: the real TimerBasedElectionTrigger on the fake clock under seeded Register/Stop/advance/reader/hold interleavings (hook H3 holds fired timer goroutines); timeout function tabulated over 0..200 and boundary views", "3 C19", SIM + ": component on the simulated clock, trigger history vs. arming history"),
 }
 PLANNED = {
 }
